@@ -99,7 +99,18 @@ def bounds(tier, seed):
             'sublattice_for_unbalanced_members': fmt(sub)}
 
 
+def input_id(case):
+    return '/'.join(str(case.get(k, '-')) for k in ('n', 'obj', 'cons', 'split', 'bounds', 'move', 'start', 'version', 'asy',
+                                                    'table', 'sigkind', 'opts'))
+
+
 _UNBAL = {}
+SIGKINDS = ['slice', 'keepalloc']
+# name -> (a per constraint, a0, c per constraint or None for the default)
+# 'minmax*': every constraint value is shifted by +2 (> 0 on the whole box), so the problem is min f0 + a0*z with
+# g_i(x) + 2 <= z: the variable z of the sub-problem is strictly positive at every sub-problem solution
+OPTS = {'a1_a0_1': (1.0, 1.0, None, 0.0), 'a1_a0_50': (1.0, 50.0, None, 0.0), 'c10': (0.0, 1.0, 10.0, 0.0),
+        'minmax_a0_1': (1.0, 1.0, None, 2.0), 'minmax_a0_50': (1.0, 50.0, None, 2.0)}
 
 
 def _expected_unbalanced(n, obj, cons, table):
@@ -131,6 +142,21 @@ def generate(tier, seed):
                                                                      lat['versions'], lat['asy']):
                         yield {'n': n, 'split': split, 'obj': obj, 'cons': cons, 'bounds': bk, 'move': mk,
                                'start': start, 'version': ver, 'asy': asy, 'table': table}
+    # how the single design variable is held (a slice of a longer signal; a signal with preallocated sensitivity) and
+    # the sub-problem options a, a0, c (Svanberg's min-max form); the latter change the problem being solved, so only
+    # the per-iteration invariants are judged there
+    yield {'__level__': 'signal-kinds-and-subproblem-options'}
+    for n in ((2, 3) if tier == 'quick' else (1, 2, 3, 5)):
+        for obj, cons in itertools.product(R.OBJECTIVES, R.CONSTRAINTS):
+            for ver in R.VERSIONS:
+                for start in (['mixed'] if tier == 'quick' else ['lower', 'mixed', 'upper']):
+                    base = {'n': n, 'split': 'one_array', 'obj': obj, 'cons': cons, 'bounds': 'scalar',
+                            'move': 'persignal', 'start': start, 'version': ver, 'asy': 'default', 'table': table}
+                    for sk in SIGKINDS:
+                        if not (_expected_unbalanced(n, obj, cons, table) and tier == 'quick'):
+                            yield dict(base, sigkind=sk)
+                    for op in sorted(OPTS):
+                        yield dict(base, opts=op)
 
 
 # ------------------------------------------------------------------------------------------------- execution
@@ -206,6 +232,19 @@ def execute(case):
             sigs.append(pym.Signal(f'x{i}', int(seg[0]) if sz == 0 else seg.astype(int)))
         else:
             sigs.append(pym.Signal(f'x{i}', float(seg[0]) if sz == 0 else seg.copy()))
+    sigkind, opts = case.get('sigkind'), case.get('opts')
+    if sigkind == 'slice':
+        basesig = pym.Signal('xb', np.concatenate([[9.0], x0, [7.0, 5.0]]))
+        sigs = [basesig[1:n + 1]]
+    elif sigkind == 'keepalloc':
+        sigs = [pym.Signal('x0', x0.copy(), sensitivity=np.zeros(n))]
+    extra = {}
+    if opts:
+        a_, a0_, c_, shift_ = OPTS[opts]
+        prob.shift = shift_
+        extra = {'a': np.full(m, a_), 'a0': a0_}
+        if c_ is not None:
+            extra['c'] = np.full(m, c_)
     seen = []
     outs = [pym.Signal('f' if i == 0 else f'g{i}') for i in range(m + 1)]
     mods = [_RESP(sigs, outs[i], prob, i, seen) for i in range(m + 1)]
@@ -254,7 +293,7 @@ def execute(case):
             pym.minimize_mma(net, sigs, outs, verbosity=0, maxit=MAXIT, tolx=TOLX, move=spec(move_spec),
                              xmin=spec(xmin_spec), xmax=spec(xmax_spec), mmaversion=case['version'],
                              asyinit=asyinit, asyincr=asyincr, asydecr=asydecr, albefa=albefa, epsimin=EPSIMIN,
-                             fn_callback=callback)
+                             fn_callback=callback, **extra)
     except _Truncate as e:
         truncated[0] = str(e).split('\n')[0]
     finally:
@@ -265,6 +304,10 @@ def execute(case):
 
     V, nchecks, observed = [], 0, set()
     base_sig = {'version': case['version'][-4:]}
+    if case.get('sigkind'):
+        base_sig['variable'] = case['sigkind']
+    if case.get('opts'):
+        base_sig['options'] = case['opts']
 
     def chk(cond, check, sig, **detail):
         nonlocal nchecks
@@ -278,6 +321,9 @@ def execute(case):
     def flat(states):
         return np.concatenate([np.atleast_1d(np.asarray(v, float)).ravel() for v in states])
 
+    if sigkind == 'slice':
+        rest = np.asarray(basesig.state)[[0, n + 1, n + 2]]
+        chk(np.array_equal(rest, [9.0, 7.0, 5.0]), 'entries_outside_the_variable_slice_changed', {}, got=rest)
     nit = len(subs)
     pending = 1 if truncated[0] == 'work limit' else 0   # the call that was cut off has no record
     chk(len(cbs) == nit + pending and len(seen) == nit + pending and len(cbs) >= 1, 'schedule', {},
@@ -351,7 +397,8 @@ def execute(case):
         comp = max(res, key=lambda kk: res[kk])
         ratio = res[comp] / arg['epsimin'] if arg['epsimin'] > 0 else float('inf')
         worst_kkt = max(worst_kkt, ratio)
-        ksig = {'cause': 'newton_iteration_cap'} if capped else \
+        # the known finding KF-C10-1 is listed input by input: a stall at any other input is reported
+        ksig = {'cause': 'newton_iteration_cap', 'input': input_id(case)} if capped else \
             dict(base_sig, cause='other', component=comp.split('_')[0])
         chk(ratio <= KKT_FACTOR, 'subproblem_kkt', ksig, iteration=k, residuals=res, epsimin=arg['epsimin'],
             ratio=ratio, newton_cap_reported=capped, subproblem=arg, returned=ret)
@@ -368,7 +415,14 @@ def execute(case):
     ref = _reference(case, lo, hi)
     inconclusive = 0
     dist0 = None
-    if truncated[0]:
+    if opts:
+        conv_tag = 'options'
+        chk(all(np.array_equal(sb[0]['a'], extra['a']) and sb[0]['a0'] == extra['a0'] and
+                np.array_equal(sb[0]['c'], extra.get('c', sb[0]['c'])) for sb in subs), 'options_handed_to_subproblem',
+            {'option': opts})
+        if ref is not None:
+            dist0 = float(np.max(np.abs(x0 - ref['x']) / dx))
+    elif truncated[0]:
         conv_tag = 'truncated'
         observed.add(f'run truncated after iteration {"<20" if nit < 20 else ">=20"} ({truncated[0]}): '
                      'convergence not judged')
